@@ -253,6 +253,14 @@ fn oracle_c12(case: &Case, outs: &[ImplRes]) -> Result<(), String> {
 
 fn oracle_c08(case: &Case, outs: &[ImplRes]) -> Result<(), String> {
     let hlen: usize = case.aux[0].parse().unwrap();
+    if let Some(l) = case.aux[1].strip_prefix("LEN:") {
+        // huge noise given by its length only
+        let glen: usize = l.parse().unwrap();
+        let m = unhex(&case.aux[2]).unwrap();
+        let end = glen + spec::frame(&m).len();
+        let want = format!("{}:disc:{} {}:ok:{} {}:F:-", glen + 8, glen, end, hex(&m), end);
+        return expect_eq("events after 2^32 noise bytes", outs[0].text, &want);
+    }
     let g = unhex(&case.aux[1]).unwrap();
     let m = unhex(&case.aux[2]).unwrap();
     let toks: Vec<&str> = case.lines[0].split(' ').collect();
